@@ -23,6 +23,8 @@ func main() {
 		os.Exit(2)
 	}
 	switch os.Args[1] {
+	case "lemmas":
+		os.Exit(check.RefreshLemmas("/verif"))
 	case "prove":
 		prove(os.Args[2:])
 	case "check", "baseline":
